@@ -177,29 +177,42 @@ def stageSeq {S V A P} (K : Kernel S V A P) (st : Stage) (offset : Nat)
     (intr : Option (Nat × Nat × Nat)) (p : P) (chains : List (Chain S V)) : Acc S V A P :=
   (chains.zipIdx.map (fun ci => (ci.2, ci.1))).foldl (seqStep K st offset intr) ⟨p, [], [], false⟩
 
+/-- What the parent can observe of one chain run by a worker: the returned output tuple, the
+chain's files, (ghost) draw log, whether the chain was interrupted. -/
+structure WOut (S V A : Type) where
+  out : Out S A
+  mem : Mem V
+  log : List Draw
+  halted : Bool
+
 /-- `_sample_chains_worker`: a worker process owns a pickled copy of the transitions (`p`, threaded
 through the chains it happens to take from the queue) and gets a pickled copy of each chain's
-generator; output arrays are files shared with the parent.  Returns the outputs it produced and
-the runs (for their effect on the files). -/
+generator; output arrays are files shared with the parent.  Returns what it produced, chain by
+chain; `break`s after an interrupted chain. -/
 def workerRun {S V A P} (K : Kernel S V A P) (st : Stage) (offset : Nat)
     (intr : Option (Nat × Nat × Nat)) (chains : List (Chain S V)) :
-    List Nat → P → List (Out S A × Run S V A P)
+    List Nat → P → List (WOut S V A)
   | [], _ => []
   | c :: todo, p =>
     match chains[c]? with
     | none => workerRun K st offset intr chains todo p
     | some ch =>
       let r := sampleChain K st offset (chainIntr intr c) p ch.state ch.rng ch.log ch.mem
-      (⟨c, r.ctx.state, r.ctx.adapt, r.ctx.rng⟩, r) ::
+      ⟨⟨c, r.ctx.state, r.ctx.adapt, r.ctx.rng⟩, r.mem, r.ctx.log, r.halted⟩ ::
         (if r.halted then [] else workerRun K st offset intr chains todo r.ctx.params)
 
 /-- effect of a finished worker chain on the parent's view: files written, (ghost) log; the
 parent's generator object is only touched by the restore step below -/
-def applyRun {S V A P} (chains : List (Chain S V)) (o : Out S A × Run S V A P) : List (Chain S V) :=
-  chains.modify o.1.idx (fun ch => { ch with mem := o.2.mem, log := o.2.ctx.log })
+def applyRun {S V A} (chains : List (Chain S V)) (o : WOut S V A) : List (Chain S V) :=
+  chains.modify o.out.idx (fun ch => { ch with mem := o.mem, log := o.log })
 
-/-- `sorted(indexed_chain_outputs, key=index)` -/
-def sortOuts {S A} (l : List (Out S A)) : List (Out S A) := l.mergeSort (fun a b => a.idx ≤ b.idx)
+def insertOut {S A} (o : Out S A) : List (Out S A) → List (Out S A)
+  | [] => [o]
+  | b :: l => if o.idx ≤ b.idx then o :: b :: l else b :: insertOut o l
+
+/-- `sorted(indexed_chain_outputs, key=index)` (a stable sort by chain index; written as an
+insertion sort so that it evaluates by structural recursion) -/
+def sortOuts {S A} (l : List (Out S A)) : List (Out S A) := l.foldr insertOut []
 
 /-- `rngs[i].bit_generator.state = rng_state` -/
 def restoreRng {S V A} (chains : List (Chain S V)) (o : Out S A) : List (Chain S V) :=
@@ -212,10 +225,10 @@ def stagePar {S V A P} (K : Kernel S V A P) (st : Stage) (offset : Nat)
     (intr : Option (Nat × Nat × Nat)) (restore : Bool) (sched : List (List Nat)) (p : P)
     (chains : List (Chain S V)) : Acc S V A P :=
   let res := (sched.map (fun todo => workerRun K st offset intr chains todo p)).flatten
-  let outs := sortOuts (res.map (·.1))
+  let outs := sortOuts (res.map (·.out))
   let chains1 := res.foldl applyRun chains
   let chains2 := if restore then outs.foldl restoreRng chains1 else chains1
-  ⟨p, outs, chains2, res.any (·.2.halted)⟩
+  ⟨p, outs, chains2, res.any (·.halted)⟩
 
 inductive Mode where
   | seq
